@@ -90,8 +90,9 @@ type EnumInfo struct {
 
 // ErrInfo: a gerror type and its tagged field names.
 type ErrInfo struct {
-	Type   string   `json:"type"`
-	Fields []string `json:"fields"`
+	Type    string   `json:"type"`
+	Fields  []string `json:"fields"`
+	Printed int      `json:"printed"` // how many of them carry the print option
 }
 
 func must(err error) {
@@ -358,6 +359,9 @@ func gerrorDef(r *rand.Rand, n int) Def {
 			fmt.Fprintf(&b, "\t%s %s `gerror:\"%s,%s\"`\n", fnames[i], ft, pa, strings.Join(tag, ","))
 			d.Counts["tagged_fields"]++
 			einfo.Fields = append(einfo.Fields, fnames[i])
+			if strings.Contains(strings.Join(tag, ","), "print") {
+				einfo.Printed++
+			}
 		}
 		b.WriteString("\tInternal string\n}\n\n")
 		d.Types = append(d.Types, name)
@@ -512,6 +516,10 @@ type jcase struct {
 	// genum: per enum the trait method names in file order; gerror: per Error() / toPrimaryType the field names
 	ValueOrders [][]string `json:"value_orders,omitempty"`
 	NameOrders  [][]string `json:"name_orders,omitempty"`
+	// how long each name order must be if the extraction saw everything (trait methods per
+	// enum, printed fields per error type): a shorter list means the harness no longer reads
+	// the output correctly (reported as such, never silently passed)
+	NameOrderSizes []int `json:"name_order_sizes,omitempty"`
 }
 
 // orderObs extracts the order-bearing lists from a generated file.
@@ -571,9 +579,10 @@ func orderObs(d *Def, src string) (valueOrders, nameOrders [][]string) {
 					break
 				}
 				if in {
-					if k := strings.Index(ln, "%v\", e."); k > 0 {
-						f := ln[k+len("%v\", e."):]
-						if j := strings.Index(f, ")"); j > 0 {
+					// result += fmt.Sprintf(<format...>, e.<Field>) + separator
+					if k := strings.LastIndex(ln, ", e."); k > 0 && strings.Contains(ln, "fmt.Sprintf(") {
+						f := ln[k+len(", e."):]
+						if j := strings.IndexAny(f, ") ,"); j > 0 {
 							fs = append(fs, f[:j])
 						}
 					}
@@ -598,6 +607,7 @@ func main() {
 	isWorker := flag.Bool("worker", false, "internal: run jobs in-process")
 	jobsArg := flag.String("jobs", "", "internal: JSON jobs")
 	defsFile := flag.String("defs", "", "JSON list of definitions to run instead of random ones")
+	only := flag.String("only", "gsort,genum,gerror", "generators to draw definitions for")
 	bins := map[string]*string{
 		"gsort":  flag.String("gsort", "", "gsort CLI"),
 		"genum":  flag.String("genum", "", "genum CLI"),
@@ -616,7 +626,13 @@ func main() {
 		must(json.Unmarshal(b, &defs))
 	} else {
 		for i := 0; i < *n; i++ {
-			defs = append(defs, gsortDef(r, i), genumDef(r, i), gerrorDef(r, i))
+			// all three are always drawn (so that a definition depends on the seed and its index
+			// only), the -only filter drops the unwanted ones
+			for _, d := range []Def{gsortDef(r, i), genumDef(r, i), gerrorDef(r, i)} {
+				if strings.Contains(","+*only+",", ","+d.Gen+",") {
+					defs = append(defs, d)
+				}
+			}
 		}
 	}
 	// the farm module
@@ -761,6 +777,12 @@ func main() {
 		}
 		if len(shas) > 0 {
 			jc.ValueOrders, jc.NameOrders = orderObs(d, outputs[i][shas[0]])
+			for _, e := range d.Enums {
+				jc.NameOrderSizes = append(jc.NameOrderSizes, len(e.Traits))
+			}
+			for _, e := range d.Errors {
+				jc.NameOrderSizes = append(jc.NameOrderSizes, e.Printed)
+			}
 		}
 		// Gallina: hashes (an empty string = no output file; errors folded into the string so
 		// that "same error every time" is also "equal")
